@@ -991,6 +991,38 @@ def rule_eig1(ctx, only=None):
                 "points fixed by the transformation (fixed points, axes, "
                 "walls and diagonalising frames come out wrong)",
                 instance=inst)
+        # the eigenvectors of a general (projective) transformation are
+        # complex as soon as one eigenvalue is: never keep only real parts
+        if rel == PROJ:
+            tgt = None
+            for n in ast.walk(f.node):
+                if isinstance(n, ast.Assign) and n.value is c \
+                        and isinstance(n.targets[0], ast.Tuple) \
+                        and len(n.targets[0].elts) == 2 \
+                        and isinstance(n.targets[0].elts[1], ast.Name):
+                    tgt = n.targets[0].elts[1].id
+            if tgt is not None:
+                realed = [n for n in ast.walk(f.node) if (
+                    isinstance(n, ast.Attribute) and n.attr == "real"
+                    and dotted(n.value) == tgt) or (
+                    isinstance(n, ast.Call) and dotted(n.func) in (
+                        "np.real", "utils.real", "np.real_if_close")
+                    and n.args and dotted(n.args[0]) == tgt)]
+                if realed:
+                    n = realed[0]
+                    r.violation(
+                        "EIG1", f"{f.fq}|real-part", loc(f, n),
+                        dotted(n)[:100],
+                        f"only the real part of the eigenvectors `{tgt}` is "
+                        "kept: for a real transformation with a complex-"
+                        "conjugate eigenvalue pair (every rotation block) "
+                        "the real part of an eigenvector is not an "
+                        "eigenvector, so eigenvector() returns a point that "
+                        "is not mapped to a multiple of itself",
+                        instance=f"{q}:complex-kept")
+                else:
+                    r.ok("EIG1", f"{q}:complex-kept", loc(f, c), "",
+                         "eigenvectors keep their imaginary parts")
 
 
 def rule_ref1(ctx):
@@ -1452,3 +1484,158 @@ def rule_svd1(ctx, min_sites=1):
     if sites < min_sites:
         raise AnalysisError(f"SVD1: {sites} svd site(s) with a V^H output, "
                             f"expected >= {min_sites}")
+
+
+# ---------------------------------------------------------------------------
+def rule_zd1(ctx):
+    r = ctx.r
+    r.rule("ZD1", "utils.normalize divides by the norms only where they do "
+                  "not vanish (np.divide(..., where=<test against 0>), a "
+                  "divisor passed through np.where(<test against 0>, ..), or "
+                  "a masked store): an exactly null vector -- the ideal "
+                  "points (1, 1, 0), from_angle(0) -- must come back "
+                  "unchanged, not as inf / nan")
+    f = ctx.p.get_function(CORE, "normalize")
+    r.analysed(f)
+    defs = single_defs(f.node)
+    # helpers one level down (an extracted `_divide_inplace`)
+    bodies = [f]
+    for c in ast.walk(f.node):
+        if isinstance(c, ast.Call) and isinstance(c.func, ast.Name):
+            g = next((g for g in ctx.p.all_functions
+                      if g.module is f.module and g.parent is None
+                      and g.cls is None and g.node.name == c.func.id
+                      and g.node.name.startswith("_")), None)
+            if g is not None:
+                bodies.append(g)
+
+    def zero_test(e, d):
+        for x in ast.walk(e):
+            if isinstance(x, ast.Name) and x.id in d and x is not e:
+                if zero_test(d[x.id], {}):
+                    return True
+            if isinstance(x, ast.Compare) and any(
+                    isinstance(c, ast.Constant) and c.value == 0
+                    for c in [x.left] + x.comparators):
+                return True
+        return False
+
+    sites = []
+    for g in bodies:
+        gd = single_defs(g.node)
+        for n in ast.walk(g.node):
+            if isinstance(n, ast.Call) and dotted(n.func) in (
+                    "np.divide", "np.true_divide") and len(n.args) >= 2:
+                w = next((k.value for k in n.keywords if k.arg == "where"),
+                         None)
+                div = n.args[1]
+                ok = (w is not None and zero_test(w, gd)) or (
+                    isinstance(div, ast.Name) and div.id in gd
+                    and isinstance(gd[div.id], ast.Call)
+                    and dotted(gd[div.id].func) == "np.where"
+                    and zero_test(gd[div.id].args[0], gd))
+                sites.append((g, n, ok))
+            elif isinstance(n, (ast.BinOp, ast.AugAssign)) \
+                    and isinstance(n.op, ast.Div):
+                div = n.right if isinstance(n, ast.BinOp) else n.value
+                tgt = n.left if isinstance(n, ast.BinOp) else n.target
+                # a constant / shape divisor is not the norm
+                if not any(isinstance(x, ast.Name) for x in ast.walk(div)):
+                    continue
+                if "shape" in dotted(div):
+                    continue
+                ok = (isinstance(div, ast.Name) and div.id in gd
+                      and isinstance(gd[div.id], ast.Call)
+                      and dotted(gd[div.id].func) == "np.where"
+                      and zero_test(gd[div.id].args[0], gd)) or (
+                    isinstance(tgt, ast.Subscript)
+                    and zero_test(tgt.slice, gd))
+                sites.append((g, n, ok))
+    if not sites:
+        r.note("ZD1", loc(f, f.node), "normalize",
+               "no division found (idiom not recognised; not judged)")
+        return
+    for g, n, ok in sites:
+        st = n
+        if ok:
+            r.ok("ZD1", f"{g.qualname}:division", loc(g, n),
+                 dotted(n)[:100], "guarded against a vanishing norm")
+        else:
+            r.violation(
+                "ZD1", f"{g.fq}|unguarded-division", loc(g, n),
+                dotted(n)[:140] if isinstance(n, ast.Call) else
+                ast.unparse(n)[:140],
+                "the vectors are divided by their norms with no test "
+                "against zero: a vector that is exactly null in floating "
+                "point ((1, 1, 0), (5, 3, 4), IdealPoint.from_angle(0)) "
+                "becomes inf / nan, and because the division is in place "
+                "the object's own data is destroyed by a read-only query "
+                "(hyperboloid coordinates, distance)",
+                instance=f"{g.qualname}:division")
+
+
+# ---------------------------------------------------------------------------
+ORTHONORMAL_SOURCES = ("np.linalg.eigh", "scipy.linalg.eigh",
+                       "indefinite_orthogonalize", "np.linalg.qr",
+                       "utils.indefinite_orthogonalize")
+
+
+def rule_eigh1(ctx):
+    r = ctx.r
+    r.rule("EIGH1", "utils.eigh hands out *orthonormal* eigenvectors on "
+                    "every return path: from np.linalg.eigh, or re-"
+                    "orthogonalised (indefinite_orthogonalize / QR). "
+                    "diagonalize_form uses U^T as U^-1; a general eigensolver "
+                    "returns unit but not mutually orthogonal vectors inside "
+                    "a repeated eigenvalue's eigenspace (every Coxeter "
+                    "diagram with a symmetry)")
+    f = ctx.p.get_function(CORE, "eigh")
+    r.analysed(f)
+    rets = [n for n in ast.walk(f.node) if isinstance(n, ast.Return)
+            and n.value is not None]
+    if not rets:
+        raise AnalysisError("utils.eigh: no return")
+    assigns = [n for n in ast.walk(f.node) if isinstance(n, ast.Assign)]
+
+    def resolve(e, before, depth=0):
+        """textual sources of e: follow names to their latest assignment
+        before line `before`"""
+        out = [e]
+        if depth > 4:
+            return out
+        for x in ast.walk(e):
+            if isinstance(x, ast.Name) and isinstance(x.ctx, ast.Load):
+                prev = [a for a in assigns if a.lineno < before and any(
+                    isinstance(t, ast.Name) and t.id == x.id
+                    or isinstance(t, ast.Tuple) and any(
+                        isinstance(y, ast.Name) and y.id == x.id
+                        for y in t.elts) for t in a.targets)]
+                if prev:
+                    a = max(prev, key=lambda a: a.lineno)
+                    out += resolve(a.value, a.lineno, depth + 1)
+        return out
+
+    for ret in rets:
+        v = ret.value
+        vec = v.elts[1] if isinstance(v, ast.Tuple) and len(v.elts) == 2 \
+            else v
+        srcs = resolve(vec, ret.lineno + 1)
+        calls = {dotted(c.func) for s in srcs for c in ast.walk(s)
+                 if isinstance(c, ast.Call)}
+        inst = f"eigh:return@{norm_stmt(ret)[:40]}"
+        if any(c in ORTHONORMAL_SOURCES for c in calls):
+            r.ok("EIGH1", inst, loc(f, ret), norm_stmt(ret)[:100],
+                 "eigenvectors come from "
+                 + ", ".join(sorted(c for c in calls
+                                    if c in ORTHONORMAL_SOURCES)))
+        else:
+            r.violation(
+                "EIGH1", f"{f.fq}|{norm_stmt(ret)[:60]}", loc(f, ret),
+                norm_stmt(ret)[:140],
+                "the eigenvectors returned here come from "
+                f"{sorted(calls) or 'no eigensolver'}: they have unit length "
+                "but are not orthogonal to each other when an eigenvalue "
+                "repeats, so diagonalize_form's W and its claimed inverse "
+                "W^T no longer match (the (4,4,4), (7,7,7) and (oo,oo,oo) "
+                "triangle groups stop satisfying their relations after "
+                "diagonalisation)", instance=inst)
